@@ -159,8 +159,12 @@ class GrammarNet(nn.Module):
                     self.layers[lname(idx)] = nn.AvgPool2d(2) if kind == "avg" else nn.MaxPool2d(2)
                 names.append(lname(idx))
             elif op == "flat":
-                self.layers[lname(idx)] = nn.Flatten(1)
-                names.append(lname(idx))
+                i0f = sh[n["ins"][0]]
+                if dim == 1 and i0f["ch"] == 1 and i0f["sp"] > 1 and not i0f["flat"] and idx % 2 == 0:
+                    op = "csq"      # (N, 1, T) -> (N, T): flattening a one-channel tensor spelled as a squeeze of the channel axis
+                else:
+                    self.layers[lname(idx)] = nn.Flatten(1)
+                    names.append(lname(idx))
             elif op == "gsq":
                 self.layers[lname(idx)] = nn.AdaptiveAvgPool1d(1)
                 names.append(lname(idx))
@@ -187,6 +191,8 @@ class GrammarNet(nn.Module):
                 y = torch.nn.functional.log_softmax(t[ins[0]], dim=1)
             elif op == "gsq":
                 y = self.layers[names[0]](t[ins[0]]).squeeze(self.arch["nodes"][len(t) - 1]["d"])
+            elif op == "csq":
+                y = t[ins[0]].squeeze(1)
             else:
                 y = t[ins[0]]
                 for nm in names:
